@@ -118,6 +118,60 @@ PROPS = {
         "real_vs_stub": REAL_TXN,
         "assumptions": ["keys are few and short: the property's adversarial key sets belong to C08"],
     },
+    "C10": {
+        "engine": "sendsim",
+        "level_text": "one RegionRequestSender.SendReqCtx / SendReqAsync call at a time on the simulated clock against a 3-replica region (variants: learner, unreachable / slow stores, labels, forwarding); a client stub answers attempt i from a fault script over the property's alphabet (17 concrete symbols + ok; tails either ok or 'repeat the last n symbols forever'); ALL scripts of length <= 3 x 2 tails x 18 configurations are enumerated (187920 scenarios), longer scripts are sampled with replica-read mode, command kind, budgets, deadlines, cancellation, validator verdicts; oracle: the call returns within a stated simulated-time / attempt budget, no more than 64 consecutive attempts without simulated time passing, a returned success is pointer-identical to the stub's answer to the last attempt, returned region errors were delivered or are the client's fake one, writes never carry replica-read / stale-read flags, no attempt after a rejected validation, every re-send carries the retry marker",
+        "level_note": "trusted: the scripted client stub (follows the real client's conventions), the budgets stated in sim/engines/sendsim/CHECK.md; the enumeration is complete for scripts up to length 3 only",
+        "level": "fault_enumeration",
+        "modes": [
+            {"mode": "enum", "quick": {"runs": 188000}, "thorough": {"runs": 188000}},
+            {"mode": "random", "quick": {"runs": 40000}, "thorough": {"runs": 1000000}},
+        ],
+        "rule": ("mode enum: run index = (script of length <= 3 over 17 fault symbols, tail, configuration), complete and independent of the seed; mode random: seeded scripts up to length 12 crossed with "
+                 "configurations; non-trivial = the call made at least two attempts; distinct = canonical attempt logs (target, flags, pause, answer)"),
+        "real_vs_stub": "real code: internal/locate RegionRequestSender, replicaSelector, RegionCache (with background goroutines), store cache, config/retry Backoffer, tikvrpc; stub: tikv.Client (scripted answers), PD = the repo's mock PD over mocktikv.Cluster, store liveness through the package's testing knob",
+        "assumptions": ["one call at a time (no concurrent senders on one cache)"],
+    },
+    "C11": {
+        "engine": "rawsim",
+        "level_text": "a real rawkv.Client over the simulated network / PD against the mock raw engine; 1-3 actors issue all 14 API calls over keys on and off region borders, duplicates in batches, empty bounds, limits ending on borders, TTLs, CAS, checksum, while regions split / merge / change leader between the region lookup and the request and between the partial requests of one call (scheduled events and RPC-attached topology fates) and region errors are injected; mode exact (no lost message): with one actor every result is compared operation by operation with a sorted-map model, with several actors per-key linearizability (porcupine); mode lossy adds lost / duplicated messages and checks per-key linearizability with maybe-applied writes",
+        "level_note": "trusted: the sorted-map model, the thin front in sim/engines/rawsim/world.go that supplies what the mock raw engine lacks (protobuf round trip, TTL in simulated time, CAS on an absent key, key-only, region check of batch delete) and audits routing; porcupine searches are step-bounded (Unknown = inconclusive, counted)",
+        "level": "exploration",
+        "modes": [
+            {"mode": "exact", "quick": {"runs": 6400}, "thorough": {"runs": 64000}},
+            {"mode": "lossy", "quick": {"runs": 3200}, "thorough": {"runs": 64000}},
+        ],
+        "rule": "seeded programs of 1-3 actors over raw keys with topology events; non-trivial = at least one multi-region call ran and a fault or topology event fired; distinct = canonical RPC traces",
+        "real_vs_stub": "real code: rawkv.Client, internal/kvrpc, internal/locate (region cache, sender), config/retry, mocktikv raw handlers and raw engine; stub: transport (SimTransport), PD (SimPD over the mock cluster with raw-mode TiKV-faithful split/merge), clock",
+        "assumptions": ["API v1 raw mode, default column family"],
+    },
+    "C13": {
+        "engine": "oraclesim",
+        "level_text": "the real pdOracle (with its updater goroutine), KVStore.GetTimestampWithRetry and KVTxn.GetTimestampForCommit over a simulated PD whose allocation and answer are separate events with latencies 0.1 ms - 3 s (answers overtake each other), clock skew, lost requests / answers; 1-8 callers issue every API of the property incl. interval changes and sleeps that drive the adaptive interval through its states; mode cas adds the verif yield points in setLastTS / validation so that the seeded scheduler interleaves the compare-and-swap loop; oracle over the recorded history with PD's issuance log as ground truth: real-time order and distinctness of issued timestamps, monotone and never-ahead low-resolution timestamp, IsExpired == (UntilExpired <= 0), commit-wait result > constraint or error, validation accepts everything issued before the call and rejects everything beyond what PD has issued when it returns",
+        "level_note": "trusted: the simulated PD / TSO log, the readings stated in sim/engines/oraclesim/CHECK.md (MaxUint64 = 'read latest' marker: refused for stale reads, not judged for normal reads; a timestamp issued during the call may get either answer)",
+        "level": "exploration",
+        "modes": [
+            {"mode": "calls", "quick": {"runs": 4000}, "thorough": {"runs": 50000}},
+            {"mode": "cas", "quick": {"runs": 8000}, "thorough": {"runs": 100000}},
+        ],
+        "rule": "seeded caller programs and PD latencies; mode cas: seeded release order of parked goroutines at the yield points; non-trivial = at least two callers overlapped; distinct = canonical call histories",
+        "real_vs_stub": "real code: oracle/oracles.pdOracle, oracle/oracle.go, tikv.KVStore timestamp retry, KVTxn.GetTimestampForCommit; stub: PD/TSO (simulated), TiKV client (never used), clock",
+        "assumptions": ["lock TTLs in 0..600000 ms (IsExpired / UntilExpired arithmetic overflows only near 2^63 ms)"],
+    },
+    "C18": {
+        "engine": "batchsim",
+        "level_text": "the real RPCClient / connection pool / batchConn / priority queue / send and receive loops / stream re-creation with the real Backoffer run over a SIMULATED BatchCommands stream (verif seam in internal/client: dial, connection-ready wait and stream creation; nine yield points); 2-32 callers send payload-tagged requests (sync and async API) with priorities, time-outs, contexts cancelled at seed-chosen instants, forwarding hosts, Close / CloseAddr at a seed-chosen instant; the simulator delays, reorders and regroups responses, answers unknown and duplicate ids, breaks the stream on Recv and / or Send, makes re-creation fail n times; oracle: every call returns exactly once with the tag of its own request or an allowed error class, never blocked beyond its time-out plus a stated slack, no call left blocked after Close, no panic, no goroutine left",
+        "level_note": "trusted: the simulated stream (Send never parks because the library calls it under its try-lock; Recv parks), the echo server; about 1-2 % of runs are not bit-for-bit replayable because of Go's random choice among ready select cases inside the library (violations are reported only after two confirming replays)",
+        "level": "exploration",
+        "modes": [
+            {"mode": "mix", "quick": {"runs": 16000}, "thorough": {"runs": 400000}},
+            {"mode": "nofault", "quick": {"runs": 4000}, "thorough": {"runs": 32000}},
+            {"mode": "ambig", "quick": {"runs": 4000}, "thorough": {"runs": 64000}},
+        ],
+        "rule": "seeded caller programs, fault plans and yield release orders; non-trivial = a call got its own response and a fault fired or a batch carried more than one request; distinct = canonical traces of dials, streams, sends, deliveries, breaks, returns",
+        "real_vs_stub": "real code: internal/client (client.go, client_batch.go, conn_batch.go, client_async.go, conn_pool.go, priority_queue.go); stub: gRPC connection and BatchCommands stream (simulated), echo server, clock",
+        "assumptions": ["interleavings inside batchCommandsClient.send are not explored"],
+    },
     "C12": {
         "engine": "mvccdiff",
         "level_text": "the repository's mock store (MVCCLevelDB methods and the ResolveLock / ScanLock RPC handlers) and a reference MVCC model receive the same stream of protocol commands of up to 4 virtual transactions over 4 keys - delivered late, reordered and duplicated as a lossy network would, with TSO-style pairwise distinct timestamps in all relative orders - and every answer (value, error class) and the full per-key state (lock fields, write records) are compared after every command",
@@ -215,4 +269,12 @@ ENGINES.append({"name": "backoffsim", "path": "sim/engines/backoffsim", "serves_
 ENGINES.append({"name": "latchsim", "path": "sim/engines/latchsim", "serves_properties": ["C17"],
                 "kind_free_text": "exhaustive and seeded interleaving exploration of the local latch scheduler against a per-key reference model (yield hooks in internal/latch)"})
 
-HOOK_COMMITS = ["a62b6a3 verif hook: internal/simhook yield points in the local latch scheduler"]
+for _e in (("sendsim", ["C10"], "fault-script enumeration and sampling for one RegionRequestSender call on the simulated clock"),
+           ("rawsim", ["C11"], "raw KV client over the simulated network with topology changes; sorted-map model and per-key linearizability"),
+           ("oraclesim", ["C13"], "pdOracle over a simulated, reordering PD; history oracle against the TSO issuance log; yield hooks for the CAS loop"),
+           ("batchsim", ["C18"], "batch client over a simulated BatchCommands stream with stream breaks, cancellation, close; exactly-once / own-response oracle")):
+    ENGINES.append({"name": _e[0], "path": "sim/engines/" + _e[0], "serves_properties": _e[1], "kind_free_text": _e[2]})
+
+HOOK_COMMITS = ["a62b6a3 verif hook: internal/simhook yield points in the local latch scheduler",
+                "d5b2db1 verif hook: yield points in pdOracle.setLastTS and getCurrentTSForValidation",
+                "fc43e7d verif hook: simulated batch stream seam and yield points in the batch client"]
